@@ -14,10 +14,37 @@ import (
 )
 
 type calRec struct {
-	year, month, day, hour, minute, weekday, dim, days *Term
+	year, month, day, hour, minute, second, weekday, dim, days *Term
+	sec *Term // seconds since 1970-01-01T00:00 of the wall-clock reading
 }
 
-type calKey struct{ ext *Term }
+// calKey identifies the calendar reading of an instant in a zone (nil = UTC).
+type calKey struct {
+	ext *Term
+	loc *value
+}
+
+// fixedZone is the engine's time.Location for time.FixedZone: a name and an offset
+// in seconds east of UTC (possibly symbolic).
+type fixedZone struct {
+	name value
+	off  *Term
+}
+
+// zoneOf returns the fixed zone behind a *time.Location value, or nil for UTC/Local.
+func (in *Interp) zoneOf(loc value) (*value, *fixedZone) {
+	p, ok := loc.(*value)
+	if !ok || p == nil {
+		return nil, nil
+	}
+	if z, ok := (*p).(*fixedZone); ok {
+		if z.off.IsConst() && z.off.c == 0 {
+			return nil, nil
+		}
+		return p, z
+	}
+	return nil, nil
+}
 
 func (in *Interp) calOf(t value) *calRec {
 	s, ok := t.(structure)
@@ -28,8 +55,17 @@ func (in *Interp) calOf(t value) *calRec {
 	if !ok {
 		return nil
 	}
-	if c, ok := in.side[calKey{ext}].(*calRec); ok {
+	lp, z := in.zoneOf(s[2])
+	if c, ok := in.side[calKey{ext, lp}].(*calRec); ok {
 		return c
+	}
+	if z != nil {
+		// the same instant read in a fixed zone: derive its wall-clock fields
+		if base, ok := in.side[calKey{ext, nil}].(*calRec); ok && base.sec != nil {
+			c := in.shiftCal(base, z.off)
+			in.side[calKey{ext, lp}] = c
+			return c
+		}
 	}
 	return nil
 }
@@ -41,15 +77,37 @@ func (in *Interp) fdiv(a *Term, k uint64) *Term {
 }
 
 func (in *Interp) newCalendarTime(name string) value {
+	c := in.calFields(name, true)
+	ext := in.tc.Add(c.sec, in.tc.Const(64, unixToInternal))
+	in.side[calKey{ext, nil}] = c
+	return structure{in.tc.Const(64, 0), ext, (*value)(nil)}
+}
+
+// calFields creates calendar fields tied together by the Gregorian rules. Inputs
+// (asInput) have second 0; derived readings (a zone shift) get a free second field.
+func (in *Interp) calFields(name string, asInput bool) *calRec {
 	tc := in.tc
 	c64 := func(v uint64) *Term { return tc.Const(64, v) }
+	mk := func(f string, lo, hi int64) *Term {
+		if asInput {
+			return in.rangedInput("int", name+"."+f, 64, lo, hi)
+		}
+		t := tc.Fresh(name+"."+f, 64)
+		in.addPC(tc.And(tc.Ule(c64(uint64(lo)), t), tc.Ule(t, c64(uint64(hi)))))
+		tc.WithRange(t, uint64(lo), uint64(hi))
+		return t
+	}
 	// years 1970..2099: in this span a year is leap iff it is divisible by 4 (2000 is
 	// a leap year; the century exceptions 2100, 2200 ... lie outside the bound)
-	y := in.rangedInput("int", name+".year", 64, 1970, 2099)
-	mo := in.rangedInput("int", name+".month", 64, 1, 12)
-	d := in.rangedInput("int", name+".day", 64, 1, 31)
-	h := in.rangedInput("int", name+".hour", 64, 0, 23)
-	mi := in.rangedInput("int", name+".minute", 64, 0, 59)
+	y := mk("year", 1970, 2099)
+	mo := mk("month", 1, 12)
+	d := mk("day", 1, 31)
+	h := mk("hour", 0, 23)
+	mi := mk("minute", 0, 59)
+	var se *Term
+	if !asInput {
+		se = mk("second", 0, 59)
+	}
 	q4, r4 := tc.DivModConst(y, 4, false)
 	leap := tc.Eq(r4, c64(0))
 	is := func(m uint64) *Term { return tc.Eq(mo, c64(m)) }
@@ -71,9 +129,60 @@ func (in *Interp) newCalendarTime(name string) value {
 	days := tc.Add(tc.Add(tc.Add(tc.Mul(tc.Sub(y, c64(1970)), c64(365)), leapsBefore), tc.Add(before, leapDay)), tc.Sub(d, c64(1)))
 	days = tc.WithRange(days, 0, 47481)
 	sec := tc.Add(tc.Add(tc.Mul(days, c64(86400)), tc.Mul(h, c64(3600))), tc.Mul(mi, c64(60)))
-	ext := tc.Add(sec, c64(unixToInternal))
-	in.side[calKey{ext}] = &calRec{year: y, month: mo, day: d, hour: h, minute: mi, dim: dim, days: days}
-	return structure{c64(0), ext, (*value)(nil)}
+	if se != nil {
+		sec = tc.Add(sec, se)
+	}
+	return &calRec{year: y, month: mo, day: d, hour: h, minute: mi, second: se, dim: dim, days: days, sec: sec}
+}
+
+// shiftCal reads the calendar instant base (UTC, second 0) in a zone off seconds east
+// of UTC, |off| <= 14h (wider offsets are pruned: none exists in practice). The local
+// fields are derived from the UTC fields by carrying at most one day, which keeps
+// every term a small-range if-then-else instead of one global linear equation.
+// Local years outside 1970..2099 are pruned (the first/last 14 hours of the span).
+func (in *Interp) shiftCal(b *calRec, off *Term) *calRec {
+	tc := in.tc
+	c64 := func(v uint64) *Term { return tc.Const(64, v) }
+	in.addPC(tc.And(tc.Sle(tc.Const(64, ^uint64(50399)), off), tc.Sle(off, c64(50400))))
+	offp := tc.WithRange(tc.Add(off, c64(50400)), 0, 100800)
+	totU := tc.Add(tc.Add(tc.Mul(b.hour, c64(3600)), tc.Mul(b.minute, c64(60))), offp)
+	totU = tc.WithRange(totU, 0, 86340+100800)
+	back := tc.Ult(totU, c64(50400))    // previous local day
+	fwd := tc.Ule(c64(136800), totU)    // next local day
+	tot := tc.Ite(back, tc.Add(totU, c64(36000)), tc.Ite(fwd, tc.Sub(totU, c64(136800)), tc.Sub(totU, c64(50400))))
+	tot = tc.WithRange(tot, 0, 86399)
+	h2, rem := tc.DivModConst(tot, 3600, false)
+	mi2, s2 := tc.DivModConst(rem, 60, false)
+	is := func(t *Term, v uint64) *Term { return tc.Eq(t, c64(v)) }
+	// previous month's length
+	pm := tc.Ite(is(b.month, 1), c64(12), tc.Sub(b.month, c64(1)))
+	_, r4 := tc.DivModConst(b.year, 4, false)
+	leap := tc.Eq(r4, c64(0))
+	pdim := tc.Ite(is(pm, 2), tc.Ite(leap, c64(29), c64(28)),
+		tc.Ite(tc.Or(is(pm, 4), is(pm, 6), is(pm, 9), is(pm, 11)), c64(30), c64(31)))
+	firstDay := is(b.day, 1)
+	lastDay := tc.Eq(b.day, b.dim)
+	prevMonth := tc.And(back, firstDay)
+	nextMonth := tc.And(fwd, lastDay)
+	d2 := tc.Ite(back, tc.Ite(firstDay, pdim, tc.Sub(b.day, c64(1))),
+		tc.Ite(fwd, tc.Ite(lastDay, c64(1), tc.Add(b.day, c64(1))), b.day))
+	d2 = tc.WithRange(d2, 1, 31)
+	m2 := tc.Ite(prevMonth, pm, tc.Ite(nextMonth, tc.Ite(is(b.month, 12), c64(1), tc.Add(b.month, c64(1))), b.month))
+	m2 = tc.WithRange(m2, 1, 12)
+	y2 := tc.Ite(tc.And(prevMonth, is(b.month, 1)), tc.Sub(b.year, c64(1)),
+		tc.Ite(tc.And(nextMonth, is(b.month, 12)), tc.Add(b.year, c64(1)), b.year))
+	in.addPC(tc.And(tc.Ule(c64(1970), y2), tc.Ule(y2, c64(2099))))
+	y2 = tc.WithRange(y2, 1970, 2099)
+	// the local month's length: February only changes with the month, never with the
+	// year alone (a year carry lands in January or December)
+	dim2 := tc.Ite(prevMonth, pdim, tc.Ite(nextMonth,
+		tc.Ite(is(m2, 2), tc.Ite(leap, c64(29), c64(28)), tc.Ite(tc.Or(is(m2, 4), is(m2, 6), is(m2, 9), is(m2, 11)), c64(30), c64(31))),
+		b.dim))
+	dim2 = tc.WithRange(dim2, 28, 31)
+	days2 := tc.Ite(back, tc.Sub(b.days, c64(1)), tc.Ite(fwd, tc.Add(b.days, c64(1)), b.days))
+	in.addPC(tc.Sle(c64(0), days2))
+	days2 = tc.WithRange(days2, 0, 47482)
+	return &calRec{year: y2, month: m2, day: d2, hour: h2, minute: mi2, second: s2, dim: dim2, days: days2}
 }
 
 // weekdayOf derives the weekday lazily (one more division by a constant).
@@ -90,6 +199,11 @@ func registerCalendar() {
 		return in.newCalendarTime(in.mustStr(a[0], "vfCalendarTime"))
 	}
 	I := intrinsics
+	I["time.FixedZone"] = func(in *Interp, fr *frame, fn *ssa.Function, a []value) value {
+		p := new(value)
+		*p = &fixedZone{name: a[0], off: a[1].(*Term)}
+		return p
+	}
 	field := func(name string, pick func(c *calRec) *Term, native func(t time.Time) int64) {
 		I["(time.Time)."+name] = func(in *Interp, fr *frame, fn *ssa.Function, a []value) value {
 			if c := in.calOf(a[0]); c != nil {
@@ -103,6 +217,12 @@ func registerCalendar() {
 				panic(engineErr("calendar field %s of a symbolic instant that is not a vfCalendarTime", name))
 			}
 			t := time.Unix(signExt(inst.sec.c, 64)-unixToInternal, int64(inst.nsec.c)).UTC()
+			if _, z := in.zoneOf(a[0].(structure)[2]); z != nil {
+				if !z.off.IsConst() {
+					panic(engineErr("calendar field %s of a constant instant in a symbolic zone", name))
+				}
+				t = t.In(time.FixedZone("z", int(signExt(z.off.c, 64))))
+			}
 			return in.i64(native(t))
 		}
 	}
@@ -124,7 +244,7 @@ func registerCalendar() {
 		}
 		return in.i64(int64(time.Unix(signExt(inst.sec.c, 64)-unixToInternal, 0).UTC().Weekday()))
 	}
-	field("Second", func(c *calRec) *Term { return nil }, func(t time.Time) int64 { return int64(t.Second()) })
+	field("Second", func(c *calRec) *Term { return c.second }, func(t time.Time) int64 { return int64(t.Second()) })
 	I["time.Date"] = func(in *Interp, fr *frame, fn *ssa.Function, a []value) value {
 		allConst := true
 		var v [7]int64
@@ -149,7 +269,8 @@ func registerCalendar() {
 				c := rec.(*calRec)
 				if c.year == y && in.tc.Add(c.month, in.tc.Const(64, 1)) == m {
 					ext := in.tc.Fresh("lastday", 64)
-					in.side[calKey{ext}] = &calRec{year: c.year, month: c.month, day: c.dim, hour: a[3].(*Term), minute: a[4].(*Term), dim: c.dim}
+					lp, _ := in.zoneOf(a[7])
+					in.side[calKey{ext, lp}] = &calRec{year: c.year, month: c.month, day: c.dim, hour: a[3].(*Term), minute: a[4].(*Term), dim: c.dim}
 					return structure{in.i64(0), ext, a[7]}
 				}
 			}
